@@ -156,7 +156,7 @@ type c32State struct {
 	looseRemove map[string]bool      // a removal of this id was requested with unknown outcome: it may land at any later time
 
 	lastResp    map[[2]string]time.Time // [dialer host, responder host] -> time of last response bytes delivered
-	notLeaderAt map[*node.Node]time.Time
+	cutSince    map[[2]string]time.Time // [from host, to host] -> instant since which "to" cannot answer "from" (down or partitioned); absent = reachable
 	prevCfg     map[*node.Node]map[string]*store.Server
 	prevLeader  map[*node.Node]bool
 	checks      int
@@ -217,6 +217,7 @@ func (st *c32State) start(in *c32Inst) bool {
 		st.c.Log.Add("%d start %s@%s failed: ok=%v err=%v", st.s.StepN, in.n.ID, in.n.HostName, ok, err)
 		return false
 	}
+	st.refreshCuts()
 	return true
 }
 
@@ -224,10 +225,57 @@ func (st *c32State) stop(in *c32Inst) {
 	if !in.n.Up {
 		return
 	}
+	st.markUnreachable(in.n.HostName)
 	in.n.Store.NoSnapshotOnClose = true
 	st.s.Do("stop "+in.n.ID+"@"+in.n.HostName, 120*time.Second, func() { in.n.Stop() })
 	delete(st.prevCfg, in.n)
 	delete(st.prevLeader, in.n)
+}
+
+// markUnreachable records the first instant from which a host cannot respond to anybody.
+func (st *c32State) markUnreachable(host string) {
+	for _, a := range st.hosts() {
+		if a != host {
+			if _, ok := st.cutSince[[2]string{a, host}]; !ok {
+				st.cutSince[[2]string{a, host}] = time.Now()
+			}
+		}
+	}
+}
+
+func (st *c32State) hosts() []string {
+	seen := map[string]bool{}
+	var out []string
+	for _, in := range st.insts {
+		if !seen[in.n.HostName] {
+			seen[in.n.HostName] = true
+			out = append(out, in.n.HostName)
+		}
+	}
+	return out
+}
+
+// refreshCuts brings the pairwise reachability record in line with the
+// simulator's network and process state. Call right after every change of
+// either (faults are only applied at quiescent points between steps).
+func (st *c32State) refreshCuts() {
+	now := time.Now()
+	hs := st.hosts()
+	for _, a := range hs {
+		for _, b := range hs {
+			if a == b {
+				continue
+			}
+			key := [2]string{a, b}
+			if !st.s.Net.Connected(a, b) {
+				if _, ok := st.cutSince[key]; !ok {
+					st.cutSince[key] = now
+				}
+			} else {
+				delete(st.cutSince, key)
+			}
+		}
+	}
 }
 
 func sufOf(voter bool) proto.Suffrage {
@@ -327,9 +375,7 @@ func (st *c32State) onStep() {
 		for _, sv := range ns {
 			cur[sv.ID] = sv
 		}
-		if !isL {
-			st.notLeaderAt[n] = now
-		} else if st.prevLeader[n] && st.prevCfg[n] != nil {
+		if isL && st.prevLeader[n] && st.prevCfg[n] != nil {
 			var ids []string
 			for id := range st.prevCfg[n] {
 				if cur[id] == nil {
@@ -360,13 +406,21 @@ func (st *c32State) vanished(l *node.Node, old *store.Server, now time.Time) {
 	if i := strings.LastIndex(host, ":"); i >= 0 {
 		host = host[:i]
 	}
-	// The leader's own reference is max(last response processed, start of its
-	// replication to that node); ours can only be earlier or equal.
+	// Ground truth: the last instant at which any response bytes from that address
+	// were delivered to a connection dialed by this leader. The leader's own
+	// reference (last response it processed, or the start of its replication to
+	// that node) can only be later or equal for a fresh observation, so a correct
+	// implementation always satisfies "now - ref > timeout".
 	ref := st.lastResp[[2]string{l.HostName, host}]
-	if t := st.notLeaderAt[l]; t.After(ref) {
-		ref = t
-	}
 	silence := now.Sub(ref)
+	if ref.IsZero() {
+		// this leader never heard from that address at all: fall back to the instant
+		// since which the harness knows that address cannot answer this leader
+		if t, ok := st.cutSince[[2]string{l.HostName, host}]; ok {
+			silence = now.Sub(t)
+			ref = t
+		}
+	}
 	c.Log.Add("%d leader %s reaped %s %s@%s: silence<=%s timeout=%s", st.s.StepN, l.ID, role, old.ID, old.Addr, silence, timeout)
 	if timeout == 0 {
 		c.Violate("reaped-while-disabled", "leader %s removed %s %s@%s although reaping of %ss is disabled (timeout 0) and nobody requested the removal", l.ID, role, old.ID, old.Addr, role)
@@ -460,7 +514,7 @@ func c32Run(c *core.Ctx, raw json.RawMessage) {
 	}
 	st := &c32State{c: c, s: s, sc: &sc,
 		want: map[string]*c32Want{}, loose: map[string][]c32Want{}, gone: map[string]bool{}, looseRemove: map[string]bool{},
-		lastResp: map[[2]string]time.Time{}, notLeaderAt: map[*node.Node]time.Time{},
+		lastResp: map[[2]string]time.Time{}, cutSince: map[[2]string]time.Time{},
 		prevCfg: map[*node.Node]map[string]*store.Server{}, prevLeader: map[*node.Node]bool{}}
 	s.Net.Tap = func(from, to *simnet.Conn, data []byte) {
 		if to.IsDialer() {
@@ -488,6 +542,7 @@ func c32Run(c *core.Ctx, raw json.RawMessage) {
 		if sc.BootPart && sc.Nodes >= 2 {
 			s.Net.Partition([]string{st.insts[0].n.HostName}, []string{st.insts[1].n.HostName})
 			c.Fault("partition-during-bootstrap")
+			st.refreshCuts()
 		}
 		for _, in := range st.insts {
 			n := in.n
@@ -501,6 +556,7 @@ func c32Run(c *core.Ctx, raw json.RawMessage) {
 		if sc.BootPart {
 			s.RunFor(time.Duration(1+c.Rng.Intn(4)) * time.Second)
 			s.Net.Heal()
+			st.refreshCuts()
 		}
 		s.Drain(90 * time.Second)
 		st.settle(30 * time.Second)
@@ -684,6 +740,7 @@ func c32Run(c *core.Ctx, raw json.RawMessage) {
 			}
 			c.Log.Add("%d %s %s@%s", s.StepN, op.Kind, in.n.ID, in.n.HostName)
 			if op.Kind == "crash" {
+				st.markUnreachable(in.n.HostName)
 				// find the simulator index of the node object
 				for i, n := range s.Nodes {
 					if n == in.n {
@@ -711,11 +768,13 @@ func c32Run(c *core.Ctx, raw json.RawMessage) {
 		case "isolate":
 			if in := pick(st.live(), op.N); in != nil {
 				st.isolate(in)
+				st.refreshCuts()
 				c.Fault("isolate")
 				c.Log.Add("%d isolate %s@%s", s.StepN, in.n.ID, in.n.HostName)
 			}
 		case "heal":
 			s.Net.Heal()
+			st.refreshCuts()
 			c.Fault("heal")
 			c.Log.Add("%d heal", s.StepN)
 		case "stepdown":
@@ -740,6 +799,7 @@ func c32Run(c *core.Ctx, raw json.RawMessage) {
 	}
 	// final: faults stop, everything that is still running converges
 	s.Net.Heal()
+	st.refreshCuts()
 	st.settle(30 * time.Second)
 	s.RunFor(2 * time.Second)
 	st.checkRoles("at the end")
